@@ -34,7 +34,7 @@ PLAN = {
         vacuity=[("smp_mixed", [], "mark-all-sampled")],
     ),
     "C06": dict(
-        quick=[("att4", dict(cap=1500)), ("att4_c", dict(cap=800)), ("lit_attach_other", dict(cap=800)), ("twin4", dict(cap=600)), ("latt_deep", dict(cap=2000)), "att_mixed", "att_mixed_r", ("lc_cross_p", dict(cap=1200)), "dup:1", "withline:1",
+        quick=[("att4", dict(cap=1500)), ("att4_c", dict(cap=800)), ("lit_attach_other", dict(cap=800)), ("twin4", dict(cap=600)), ("latt_deep", dict(cap=2000)), "att_mixed", "att_mixed_r", ("lc_cross_p", dict(cap=1200)), ("lit_attach_cycles", dict(cap=1500)), "dup:1", "withline:1",
                ("stress:att4", dict(rounds=200, threads=6))],
         thorough=["att4", "att5", "att4_c", "lit_attach_other", "twin4", "latt_deep", "att_mixed", "att_mixed_r", "dup:1", ("sim_att", dict(cap=6000))],
         vacuity=[("att4", [], "drain-danglings")],
